@@ -143,7 +143,10 @@ func sizesOK(res *kit.Result, what string, c *Case, b kit.AnyBuf, bits int) bool
 }
 
 func Check(c *Case) (res kit.Result) {
-	if c.C < 0 || c.C > 8 || c.L < 0 || c.K < 0 || c.K > 64 || c.N < 0 || c.N > 64 || c.kind() == "" {
+	if c.C < 0 || c.C > 1<<17 || c.L < 0 || c.K < 0 || c.K > 64 || c.N < 0 || c.N > 64 || c.kind() == "" {
+		return
+	}
+	if c.C > 8 && (c.K > 2 || c.N > 2 || c.K2 > 2) { // wide degenerate buffers: bounded storage
 		return
 	}
 	if c.C > 0 && c.L > c.K {
@@ -171,6 +174,9 @@ func Check(c *Case) (res kit.Result) {
 	defer func() {
 		if res.Fail == "" && !skipped {
 			res.Class(c.Entry + ":" + c.kind())
+			if c.C >= 255 {
+				res.Class("hundredsOrThousandsOfChannels")
+			}
 		}
 	}()
 	switch c.Entry {
@@ -590,6 +596,14 @@ func Gen(t *rapid.T) *Case {
 	}
 	c.N = rapid.IntRange(0, 40).Draw(t, "n")
 	c.K2 = rapid.IntRange(0, 5).Draw(t, "k2")
+	if c.C > 0 && kit.Chance(t, "wide", 1, 25) {
+		// a degenerate buffer may have any number of channels: around the ranges of 8- and 16-bit counters
+		c.C = rapid.SampledFrom(WideChannels).Draw(t, "cWide")
+		c.K, c.N, c.K2 = kit.Min(c.K, 2), c.N%3, c.K2%3
+		if c.K > 0 {
+			c.L = 0
+		}
+	}
 	c.T = rapid.SampledFrom(names).Draw(t, "t")
 	switch c.Entry {
 	case "write", "read", "writeStriped", "readStriped":
@@ -601,5 +615,8 @@ func Gen(t *rapid.T) *Case {
 	}
 	return c
 }
+
+// WideChannels: channel counts around 2^8, 2^16 and 2^17.
+var WideChannels = []int{255, 256, 257, 65535, 65536, 65537, 65538, 1 << 17}
 
 var Oracle = kit.Oracle[Case]{Property: Property, Gen: Gen, Check: Check, FP: FP}
